@@ -3,12 +3,14 @@ package sqlite
 import (
 	"bufio"
 	"context"
+	"database/sql"
 	"fmt"
 	"io"
 	"log/slog"
 	"math/rand/v2"
 	"net"
 	"net/http/httptest"
+	"path/filepath"
 	"strings"
 	"sync"
 	"sync/atomic"
@@ -305,6 +307,68 @@ func TestVerif_C13(t *testing.T) {
 		}
 	}
 
+	// SQLite handler with a stalled bulk inserter: another connection holds the write
+	// lock, the insert queue fills up, and the session is cancelled while an EVENT is
+	// waiting for room in the queue
+	nStall := vk.N(3, 24)
+	vk.ParallelW(8, nStall, func(i int) {
+		r := vk.RNG("C13/stall", i)
+		path := filepath.Join(t.TempDir(), fmt.Sprintf("stall%d.db", i))
+		dbA, err := sql.Open("sqlite3", "file:"+path+"?_busy_timeout=120000")
+		if err != nil {
+			return
+		}
+		defer dbA.Close()
+		hctx, hcancel := context.WithCancel(ctx)
+		defer hcancel()
+		nbulk := 1 + r.IntN(2)
+		h, err := NewSQLiteHandler(hctx, dbA, &SQLiteHandlerOption{EventBulkInsertNum: nbulk, MaxLimit: NoLimit})
+		if err != nil {
+			rep.Inconclusive("C13: could not create the SQLite handler on a file database: " + err.Error())
+			return
+		}
+		dbB, err := sql.Open("sqlite3", "file:"+path+"?_busy_timeout=50")
+		if err != nil {
+			return
+		}
+		defer dbB.Close()
+		lockConn, err := dbB.Conn(ctx)
+		if err != nil {
+			return
+		}
+		defer lockConn.Close()
+		if _, err := lockConn.ExecContext(ctx, "BEGIN EXCLUSIVE"); err != nil {
+			rep.Inconclusive("C13: could not take the database lock: " + err.Error())
+			return
+		}
+		defer lockConn.ExecContext(ctx, "ROLLBACK")
+		s := vk.StartSession(ctx, h, 64)
+		g := vk.NewStoreGen(r, 2, 50)
+		g.NoEphemeral = true
+		taken := 0
+		for k := 0; k < 4*nbulk+4; k++ {
+			tmo := time.NewTimer(300 * time.Millisecond)
+			select {
+			case s.Recv <- &mocrelay.ClientEventMsg{Event: g.Next()}:
+				taken++
+			case <-tmo.C:
+				k = 1 << 20
+			}
+			tmo.Stop()
+		}
+		rep.Eval(1)
+		if !s.Stop() {
+			if p := vk.ParkedInRepo(); p != nil {
+				rep.Violation("termination/serve-did-not-return/sqlite-inserter-stalled", "ServeNostr of the SQLite handler did not return after cancel while the bulk inserter was stalled and the queue full", map[string]any{"events_taken": taken, "bulk": nbulk, "parked_goroutine": p.Stack})
+			} else {
+				rep.Inconclusive("C13: SQLite session did not return within the bound, no parked goroutine found")
+			}
+			return
+		}
+		rep.Count("sqlite_stalled_inserter_sessions", 1)
+		rep.Nontrivial(fmt.Sprintf("stall/%d/%d", nbulk, taken))
+	})
+
 	// WebSocket clause
 	type wsCase struct {
 		sendTimeout, ping, delay time.Duration
@@ -413,6 +477,7 @@ func TestVerif_C13(t *testing.T) {
 	for _, e := range []string{"cancel, peer draining", "cancel, peer stalled", "inbound close, peer draining"} {
 		rep.Require(rep.Counter("ending:"+e) >= int64(n/6), "ending "+e)
 	}
+	rep.Require(rep.Counter("sqlite_stalled_inserter_sessions") >= int64(nStall*2/3), "stalled-inserter sessions")
 	rep.Require(rep.Counter("websocket_stalled_peer_dropped") >= int64(len(cases)*reps*3/4), "websocket runs")
 }
 
